@@ -103,4 +103,28 @@ def fullRenderLine (toks : List String) : String :=
       | .error e => "e:render:" ++ e.tag
   | _ => "bad-request"
 
+/-- `parseinline <arguments of inlinei>` — `MarkdownIt.parseInline`: the wrapper token and its children (`parseInlineM`) -/
+def parseInlineLine (toks : List String) : String :=
+  match toks with
+  | [mn, rs, fj, tj, html, ents, refm, ntxt, hasRefs, storeLabels, refHref, refTitle, normRef, src] =>
+    let ext := mkExt (decBool html) (decPairs ents) (decPairs refm) (decPairs ntxt)
+    let hrefs := decPairs refHref
+    let titles := decPairs refTitle
+    let nrefs := decPairs normRef
+    let lx : LExt := { hasRefs := decBool hasRefs, storeLabels := decBool storeLabels
+                       normRef := fun l => (lookupC nrefs l).getD missMark
+                       refs := fun l => match lookupC hrefs l with
+                         | some h => some (h, (lookupC titles l).getD [])
+                         | none => none }
+    let has := fun (c : Char) => rs.toList.contains c
+    let ic : ICfg := { text := has 't', newline := has 'n', escape := has 'e', backticks := has 'b', strike := has 's', emphasis := has 'm',
+                       link := has 'l', image := has 'i', autolink := has 'a', htmlInline := has 'h', entity := has 'y',
+                       fragJoin := decBool fj, inlineOn := true, textJoinOn := decBool tj }
+    let m := mn.toInt!
+    let cs := decChars src
+    match parseInlineM drvCls ext lx ic m ((m.toNat + 2) * (cs.length / 4 + 2)) cs with
+    | .error e => "e:" ++ e.tag
+    | .ok ts => "ok " ++ " ".intercalate (encToks ts)
+  | _ => "bad-request"
+
 end MdIt.Drv
